@@ -4,6 +4,83 @@ ROOT = os.path.dirname(os.path.dirname(os.path.abspath(__file__)))
 PROPS = [json.loads(l) for l in open(os.path.join(ROOT, 'properties.jsonl'))]
 
 CLAIMED = {
+ 'C04': dict(
+   text=('Machine-checked proof (Coq 8.16.1) over the ORM model Model/Orm.v, by an inductive invariant over ALL histories of '
+         'create/get/select/alternate-id lookup/read/assign/set/sync/destroy/drop-reference/cull/pickle/unpickle, with cache on or off and '
+         'any cull frequency/fraction: two held undestroyed objects for the same existing row are the same object (C04_unique); get, '
+         'alternate-id lookup and select iteration hand back the very object the application holds (C04_get/byalt/select_returns_held); '
+         'unpickling an existing held row raises instead of creating a second instance (C04_unpickle_no_duplicate); with strong caching and '
+         'no unpickling a deleted row is never handed out (C04_deleted_not_returned_partial). The three open findings (expire purges the map; '
+         'cache=False hands out destroyed rows; unpickling a destroyed row) carry refutation witnesses. The model is tied to the code by '
+         'running it (vm_compute) against the real SQLObject after every operation, incl. identity tokens and cache contents.'),
+   note=('Trusted: Coq kernel; the hand-written model Model/Orm.v (validated only by the correspondence); CPython refcounting and sqlite '
+         'modelled; access paths in the model: get, select, alternate id, unpickle, create (foreign-key attributes and join accessors go through '
+         'SQLObject.get and are exercised by C13). Guard: histories without expire/expireAll/cache.clear()/raw SQL/injected faults.'),
+   technique='Coq proof (inductive invariant over all reachable states of an executable ORM+cache model) + vm_compute correspondence against sqlite',
+   design='3/C04, 9.2'),
+ 'C05': dict(
+   text=('Machine-checked proof (Coq 8.16.1) over the ORM model: after any history of library operations (create/get/select/lookup/read/'
+         'assign/multi-column set valid or failing/sync/syncUpdate/destroy/drop/cull; cache on/off; eager, lazy and cacheValues=False classes) '
+         'every cached attribute of every held undestroyed instance equals the stored row (the pending value on a lazy object) (C05_coherent) '
+         'and every explicit read returns it (C05_read); from ANY state sync() shows the stored row or raises not-found (C05_sync_refreshes) '
+         'and expire() followed by a read does too (C05_expire_then_read). The consequence of the open identity findings of C04 (a second '
+         'instance after expire goes stale) carries a refutation witness. Tied to the code by the vm_compute correspondence after every operation '
+         'and a coherence oracle (every cached attribute vs a raw SELECT after every step).'),
+   note=('Trusted: Coq kernel; the hand-written model Model/Orm.v (validated only by the correspondence); sqlite modelled. Guard: histories '
+         'without expire/expireAll/cache.clear()/raw SQL/faults/pickling (the two refresh theorems hold on arbitrary states and cover out-of-band changes).'),
+   technique='Coq proof (inductive coherence invariant over all reachable states of an executable ORM model) + vm_compute correspondence against sqlite',
+   design='3/C05, 9.2'),
+ 'C13': dict(
+   text=('Machine-checked proof (Coq 8.16.1) over Model/Joins.v (classes A, B with a foreign key to A, P with a mirrored self-referential '
+         'many-to-many; link tables as multisets), for ALL histories of create/fk-assign/add/remove from either side/destroy: MultipleJoin returns '
+         'exactly the rows whose foreign key points at the owner, sorted by the join ordering (C13_one_to_many); RelatedJoin returns exactly the '
+         'linked rows with multiplicity and is symmetric (C13_many_to_many, C13_symmetric); SingleJoin (C13_single); list- and query-flavoured '
+         'joins agree (C13_list_query_agree, C13_list_query_agree_related); doSort yields a lexicographically sorted permutation for any key list '
+         '(C13_sorted); links only mention live rows after destroy (C13_links_live). doSort recursion order, join column roles and destroySelf\'s '
+         'clean-up columns are regenerated from source (Tie A); the model is run against the real SQLObject after every step (Tie B).'),
+   note=('Trusted: Coq kernel; tools/py2coq/gen_joins.py; Model/Joins.v hand model (fixed three-class fixture, cascade=None, string orderBy); '
+         'sqlite scan order/NULL ordering and stability of list.sort modelled; orderBy=[] excluded (both flavours fail).'),
+   technique='Coq proof (invariants over all histories of a relational join model, sortedness by induction on the key list) + py2coq regeneration + vm_compute correspondence against sqlite',
+   design='3/C13, docs/notes/C13.md'),
+ 'C03': dict(
+   text=('Machine-checked proof (Coq 8.16.1) over Model/Expr.v: for every well-typed expression tree of any depth (fields, constants incl. '
+         'negative numbers/strings/NULL, arithmetic, unary minus, comparisons, AND/OR/NOT as functions or & | ~, IN/NOT IN incl. empty and '
+         'NULL-containing lists, IS NULL tests, == None) and every dialect rendering, parsing the rendered token list with a reference SQL '
+         'precedence parser -- for ANY precedence table -- gives back exactly the constructed tree (C03_render_parse), so filtering by the text '
+         'selects the rows for which the tree is TRUE under three-valued logic (C03_eval, C03_filter); == None builds IS NULL and no rendering '
+         'contains = NULL (C03_none_is_null, C03_never_eq_null); n-ary AND/OR and NOTIN mean what they say. The operator table and the '
+         'parenthesisation rules of SQLOp/SQLPrefix/INSubquery are regenerated from source (Tie A); texts and selected ids are compared with the '
+         'real SQLObject on sqlite (Tie B).'),
+   note=('Trusted: Coq kernel; tools/py2coq/gen_expr.py; reference lexer/parser/eval3 (validated against sqlite 3.40 only); Python operator '
+         'dispatch modelled; string constants restricted to characters every dialect quotes alike (escaping is C02).'),
+   technique='Coq proof (structural induction: render/parse round trip for any precedence table) + py2coq regeneration + vm_compute correspondence against sqlite',
+   design='3/C03, docs/notes/C03.md'),
+ 'C02': dict(
+   text=('Machine-checked proof (Coq 8.16.1): for every string (all code points, any length) and every continuation not starting with a quote, '
+         'the text the library renders is exactly ONE literal of the dialect which the dialect\'s reference lexer decodes back to the original '
+         'string -- ANSI-style dialects (sqlite, firebird, sybase, maxdb, mssql: C02_string_ansi), MySQL backslash escapes (C02_string_mysql), '
+         'PostgreSQL plain and E\'\' literals incl. the prefix decision (C02_string_pg_partial: NUL-free strings); numbers, booleans, None, '
+         'dates and sequences render as single tokens (C02_value_tokens, C02_sequence); the token skeleton of INSERT / UPDATE SET / WHERE = / '
+         'IS NULL / IN statements is independent of the data (C02_insert ... C02_skeleton_independent_of_data); sqlite refuses NUL '
+         '(C02_sqlite_nul). The escape table and converter branches are regenerated from converters.py/dbconnection.py on every run (Tie A); '
+         'texts of all seven dialects and the real sqlite engine\'s decoding are compared on every case (Tie B). Open findings carry refutation '
+         'witnesses (postgres NUL+octal digit; T-SQL line continuation; sqlite ints beyond 64 bit).'),
+   note=('Trusted: Coq kernel; tools/py2coq/{strlang,gen_lit}.py and Lib/Str.v (Python string primitives); the MySQL/PostgreSQL/T-SQL lexers '
+         'and the statement tokenizer in Lib/Lex.v are transcriptions of vendor rules (only the ANSI lexer is validated, against sqlite); UTF-8 '
+         'connection charset; floats/Decimal judged by the oracle only; enum DDL covered by one theorem + sqlite execution.'),
+   technique='Coq proof (induction over strings: render/lex round trip per dialect; token-skeleton theorems) + py2coq regeneration + vm_compute correspondence against sqlite',
+   design='3/C02, docs/notes/C02.md'),
+ 'C17': dict(
+   text=('Machine-checked proof (Coq 8.16.1): for every argument string s and stored text t, the pattern built by startswith/endswith/contains '
+         '-- as rendered, decoded by the dialect\'s literal lexer (C02 round trip) and interpreted by a reference LIKE matcher with the ESCAPE '
+         'character the rendering declares -- matches t iff s is a prefix/suffix/infix of t taken literally, for ANY character-equality '
+         '(collation) (C17_like_literal, C17_helpers_unguarded for sqlite/firebird/maxdb/mysql, C17_helpers_postgres_partial for NUL-free '
+         'arguments, C17_helpers_tsql_partial without [ ). _quote_like_special/_LikeQuoted are regenerated from source (Tie A); exhaustive small '
+         'alphabets are run on the real sqlite LIKE (ASCII case-insensitive) and texts of all dialects compared (Tie B).'),
+   note=('Trusted: Coq kernel; py2coq generators; reference LIKE matcher and T-SQL bracket semantics (transcribed); dialect lexers as in C02; '
+         'only sqlite is executed. An SQLExpression (non-string) argument is outside the property.'),
+   technique='Coq proof (induction over pattern and text: LIKE matcher vs literal prefix/suffix/infix) + py2coq regeneration + vm_compute correspondence against sqlite',
+   design='3/C17, docs/notes/C17.md'),
  'C16': dict(
    text=('Machine-checked proof (Coq 8.16.1) over the ORM model Model/Orm.v: for every history (any operations, failures, injected faults, '
          'out-of-band SQL, any cache configuration) the dirty flag of every held object is true exactly while assignments are pending '
